@@ -4,7 +4,8 @@ from __future__ import annotations
 import ast
 from typing import Any
 
-from ..astutil import ERROR_CLASSES, call_name, cfg_of, constructs_error, error_names, norm, returns_error, short, stmt_calls, where
+from ..astutil import (ERROR_CLASSES, Locals, call_name, cfg_of, constructs_error, error_names, names_in, norm, receivers, resolved_text,
+                       returns_error, role_anon, short, stmt_calls, where)
 from ..cfg import CFG, walk_own
 from ..core import PKG, Report
 from .registries import check_module_files, check_registries
@@ -16,25 +17,26 @@ LEVEL = ("error discipline and accounting over all paths: no value whose static 
          "are concatenated up to the CLI; the method list equals the Operation fields of PathItem.")
 
 # skips that do not lose a listed item (operations, component schemas, response statuses, request media types)
+# guards are written with locals replaced by their role (astutil.role_anon): the table does not depend on how locals are spelled
 BENIGN_SKIPS = {
-    ("parser.openapi.EndpointCollection.from_data", "operation is None"): "the path item has no operation for this method",
-    ("parser.openapi.Endpoint.add_parameters", "param.param_schema is None"):
+    ("parser.openapi.EndpointCollection.from_data", "<=getattr()> is None"): "the path item has no operation for this method",
+    ("parser.openapi.Endpoint.add_parameters", "_.param_schema is None"):
         "a parameter with `content` instead of `schema` is skipped without a diagnostic; parameters are not among the items the "
         "property enumerates (recorded as an observation)",
-    ("parser.openapi.Endpoint.add_parameters", "any((other_param for other_param in parameters_by_location[param.param_in] if other_param.name == param.name))"):
+    ("parser.openapi.Endpoint.add_parameters", "any((<each _[_.param_in]> for <each _[_.param_in]> in _[_.param_in] if <each _[_.param_in]>.name == _.name))"):
         "a path-item parameter overridden by an operation-level parameter of the same name and location",
-    ("parser.properties.model_property.ModelProperty.build", "isinstance(root, utils.ClassName)"): "class-name roots carry no reference dependency",
-    ("parser.properties.enum_property.EnumProperty.values_from_list", "isinstance(value, int)"): "the integer member has just been stored",
+    ("parser.properties.model_property.ModelProperty.build", "isinstance(<each roots>, utils.ClassName)"): "class-name roots carry no reference dependency",
+    ("parser.properties.enum_property.EnumProperty.values_from_list", "isinstance(<each enumerate(values)[1]>, int)"): "the integer member has just been stored",
 }
-DOC_LOOPS = {  # function -> substrings identifying its loops over document collections
-    "parser.openapi.EndpointCollection.from_data": ("data.items()", "methods"),
+DOC_LOOPS = {  # function -> substrings of the loop's iterable *resolved through the locals it is bound from* (astutil.resolved_text)
+    "parser.openapi.EndpointCollection.from_data": ("data.items()", "['get', 'put'"),
     "parser.openapi.Endpoint._add_responses": ("data.items()",),
     "parser.openapi.Endpoint.add_parameters": ("data.parameters",),
-    "parser.openapi.Endpoint.from_data": ("bodies",),
-    "parser.bodies.body_from_data": ("body_content.items()",),
-    "parser.properties._create_schemas": ("to_process",),
-    "parser.properties._process_models": ("to_process",),
-    "parser.properties.build_parameters": ("to_process",),
+    "parser.openapi.Endpoint.from_data": ("body_from_data(",),
+    "parser.bodies.body_from_data": (".content",),
+    "parser.properties._create_schemas": ("components.items()",),
+    "parser.properties._process_models": ("schemas.models_to_process",),
+    "parser.properties.build_parameters": ("components.items()",),
 }
 
 
@@ -92,7 +94,12 @@ def run(rep: Report, ctx: Any) -> str:
             continue
         cfg = cfg_of(f, cfgs)
         errs = error_names(f.node)
-        loops = [n for n in ast.walk(f.node) if isinstance(n, ast.For) and any(p in norm(n.iter) for p in DOC_LOOPS[sf])]
+        def is_doc_loop(n: ast.AST, f: Any = f, sf: str = sf) -> bool:
+            return isinstance(n, ast.For) and any(p in resolved_text(n.iter, f.node) for p in DOC_LOOPS[sf])
+
+        loops = [n for n in ast.walk(f.node) if is_doc_loop(n)]
+        # collections an item is recorded into, one record each: a local bound to a comprehension of setdefault(...) results
+        fan_out = set(Locals(f.node).bound_from(lambda v: ".setdefault(" in v and v.startswith("["), "assign"))
         rep.check(bool(loops), "R07.2", f"{sf}::loops-found", "loops over the document collection not found", where(f, f.node))
         for lp in loops:
             inner_loops = [x for x in ast.walk(lp) if isinstance(x, (ast.For, ast.While)) and x is not lp]
@@ -100,11 +107,11 @@ def run(rep: Report, ctx: Any) -> str:
                 if not isinstance(st, (ast.Continue, ast.Break)) or id(st) in done_skips:
                     continue
                 done_skips.add(id(st))
-                if any(any(y is st for y in ast.walk(il)) for il in inner_loops if not any(p in norm(getattr(il, "iter", ast.Constant(0))) for p in DOC_LOOPS[sf])):
+                if any(any(y is st for y in ast.walk(il)) for il in inner_loops if not is_doc_loop(il)):
                     continue
                 n_skips += 1
                 guard = _innermost_if(lp, st)
-                gtxt = norm(guard.test) if guard is not None else ""
+                gtxt = role_anon(guard.test, f.node) if guard is not None else ""
                 key = f"{sf}::{'continue' if isinstance(st, ast.Continue) else 'break'} under [{gtxt[:70]}]"
                 if (sf, gtxt) in BENIGN_SKIPS:
                     rep.ok("R07.2", key, "frozen benign skip", BENIGN_SKIPS[(sf, gtxt)], nontrivial=False)
@@ -113,7 +120,7 @@ def run(rep: Report, ctx: Any) -> str:
                 def records(n: object) -> bool:
                     if not isinstance(n, ast.stmt):
                         return False
-                    if isinstance(n, ast.For) and n is not lp and norm(n.iter) == "collections":
+                    if isinstance(n, ast.For) and n is not lp and norm(n.iter) in fan_out:
                         # one record per collection the operation belongs to (non-emptiness of that list is R07.6)
                         return any(records(s) for s in n.body)
                     for c in walk_own(n):
@@ -137,10 +144,12 @@ def run(rep: Report, ctx: Any) -> str:
               "EndpointCollection.from_data::error-headers", "endpoint diagnostics do not name METHOD and path on both routes", where(fd, fd.node),
               lhs=[norm(h.value)[:60] for h in hdrs], rhs="f'... {method.upper()} {path} ...' x2")
     us = ix.func("schemas.update_schemas_with_data")
-    rep.check(any(isinstance(n, ast.Assign) and norm(n.targets[0]) == "prop.header" and "ref_path" in norm(n.value) for n in ast.walk(us.node)),
+    rep.check(any(isinstance(n, ast.Assign) and norm(n.targets[0]).endswith(".header") and "ref_path" in names_in(n.value) for n in ast.walk(us.node)),
               "R07.3", "update_schemas_with_data::error-names-reference", "schema errors do not carry the reference path", where(us, us.node))
     pm = ix.func("properties._process_models")
-    rep.check("model_prop.name" in norm(pm.node) and "header" in norm(pm.node), "R07.3", "_process_models::error-names-schema",
+    mvars = {norm(lp.target) for lp in ast.walk(pm.node) if isinstance(lp, ast.For) and any(call_name(c) == "process_model" for c in ast.walk(lp) if isinstance(c, ast.Call))}
+    rep.check(any(isinstance(n, ast.Assign) and norm(n.targets[0]).endswith(".header") and any(f"{m}.name" in norm(n.value) for m in mvars)
+                  for n in ast.walk(pm.node)), "R07.3", "_process_models::error-names-schema",
               "model processing errors do not name the schema", where(pm, pm.node))
 
     # ---- R07.4 -------------------------------------------------------------------------------------------------------------------
@@ -149,48 +158,77 @@ def run(rep: Report, ctx: Any) -> str:
 
     # ---- R07.5 ---------------------------------------------------------------------------------------------------------------------
     ge = ix.func("Project._get_errors")
-    t = norm(ge.node)
-    rep.check(all(x in t for x in ("collection.parse_errors", "self.openapi.errors", "self.errors")) and "return errors" in t, "R07.5",
-              "Project._get_errors::concatenates", "an error list is missing from the aggregate", where(ge, ge.node))
+    rets_ge = [n for n in ast.walk(ge.node) if isinstance(n, ast.Return) and isinstance(n.value, ast.Name)]
+    acc = {r.value.id for r in rets_ge}
+    fed = [norm(c.args[0]) for r, c in receivers(ge.node, "extend") if r in acc and c.args]
+    coll_ok = any(isinstance(lp, ast.For) and "endpoint_collections_by_tag" in norm(lp.iter) and
+                  any(r in acc and c.args and norm(c.args[0]) == f"{norm(lp.target)}.parse_errors" for r, c in receivers(lp, "extend"))
+                  for lp in ast.walk(ge.node))
+    rep.check(coll_ok and "self.openapi.errors" in fed and "self.errors" in fed and bool(rets_ge), "R07.5",
+              "Project._get_errors::concatenates", "an error list is missing from the aggregate", where(ge, ge.node), lhs=fed,
+              rhs="every collection's parse_errors, self.openapi.errors, self.errors")
     gd = ix.func("GeneratorData.from_dict")
-    rep.check("errors=schemas.errors + parameters.errors" in norm(gd.node), "R07.5", "GeneratorData.from_dict::errors",
-              "schema or parameter errors are not handed to the project", where(gd, gd.node))
+    # the accumulators (any spelling) are what EndpointCollection.from_data receives as schemas= / parameters= and returns
+    ecalls = [n for n in ast.walk(gd.node) if isinstance(n, ast.Assign) and isinstance(n.value, ast.Call) and call_name(n.value) == "EndpointCollection.from_data"]
+    rep.require(ecalls, "EndpointCollection.from_data(...) in GeneratorData.from_dict")
+    kws = {k.arg: norm(k.value) for k in ecalls[0].value.keywords}
+    accs = {kws.get("schemas"), kws.get("parameters")}
+    tg = ecalls[0].targets[0]
+    returned = {norm(e) for e in tg.elts[1:]} if isinstance(tg, ast.Tuple) else set()
+    gcalls = [c for c in ast.walk(gd.node) if isinstance(c, ast.Call) and call_name(c) == "GeneratorData"]
+    ev = next((k.value for c in gcalls for k in c.keywords if k.arg == "errors"), None)
+    parts = set()
+    if isinstance(ev, ast.BinOp) and isinstance(ev.op, ast.Add):
+        parts = {norm(ev.left), norm(ev.right)}
+    rep.check(None not in accs and returned == accs and parts == {f"{a}.errors" for a in accs}, "R07.5", "GeneratorData.from_dict::errors",
+              "schema or parameter errors are not handed to the project", where(gd, gd.node), lhs=sorted(parts), rhs=sorted(f"{a}.errors" for a in accs if a))
     b = ix.func("Project.build")
     rets = [n for n in ast.walk(b.node) if isinstance(n, ast.Return)]
     rep.check(any(norm(r.value) == "self._get_errors()" for r in rets if r.value is not None), "R07.5", "Project.build::returns-errors",
               "build() does not return the aggregated errors", where(b, b.node))
     g = ix.func(f"{PKG}.generate")
-    rep.check(any(isinstance(n, ast.Return) and n.value is not None and norm(n.value) == "project.build()" for n in ast.walk(g.node)), "R07.5",
-              "generate::returns-build", "generate() does not return what build() returns", where(g, g.node))
+    projs = set(Locals(g.node).bound_from(lambda v: v.startswith("_get_project_for_url_or_path("), "assign"))
+    rep.check(any(isinstance(n, ast.Return) and n.value is not None and any(norm(n.value) == f"{p_}.build()" for p_ in projs) for n in ast.walk(g.node)),
+              "R07.5", "generate::returns-build", "generate() does not return what build() returns", where(g, g.node))
 
     # ---- R07.6 -----------------------------------------------------------------------------------------------------------------------
-    tags_assign = [n for n in ast.walk(fd.node) if isinstance(n, ast.Assign) and norm(n.targets[0]) == "tags"]
+    # the tag list (any spelling): the local handed to Endpoint.from_data as tags=
+    efd_calls = [c for c in ast.walk(fd.node) if isinstance(c, ast.Call) and call_name(c) == "Endpoint.from_data"]
+    rep.require(efd_calls, "Endpoint.from_data(...) call in EndpointCollection.from_data")
+    tagv = next((norm(k.value) for c in efd_calls for k in c.keywords if k.arg == "tags"), "")
+    tags_assign = [n for n in ast.walk(fd.node) if isinstance(n, ast.Assign) and norm(n.targets[0]) == tagv]
     rep.require(tags_assign, "tags assignment in from_data")
     first = tags_assign[0]
     ok = _nonempty(first.value)
     for a in tags_assign[1:]:
-        ok = ok and _nonempty(a.value, {"tags"})
+        ok = ok and _nonempty(a.value, {tagv})
     rep.check(ok, "R07.6", "EndpointCollection.from_data::tags-non-empty",
               "the list of tags of an operation can be empty (e.g. `tags: []`): the operation is attached to no collection and vanishes "
               "with its diagnostics", where(fd, first), lhs=[norm(a.value)[:70] for a in tags_assign], rhs="provably non-empty")
-    colls = [n for n in ast.walk(fd.node) if isinstance(n, ast.Assign) and norm(n.targets[0]) == "collections"]
-    rep.check(bool(colls) and isinstance(colls[0].value, ast.ListComp) and not colls[0].value.generators[0].ifs and
-              norm(colls[0].value.generators[0].iter) == "tags", "R07.6", "EndpointCollection.from_data::one-collection-per-tag",
-              "collections are not derived one per tag", where(fd, fd.node))
+    colls = [n for n in ast.walk(fd.node) if isinstance(n, ast.Assign) and isinstance(n.value, ast.ListComp) and ".setdefault(" in norm(n.value.elt)]
+    rep.check(bool(colls) and not colls[0].value.generators[0].ifs and norm(colls[0].value.generators[0].iter) == tagv, "R07.6",
+              "EndpointCollection.from_data::one-collection-per-tag", "collections are not derived one per tag", where(fd, fd.node))
     # both outcomes reach every collection
-    t2 = norm(fd.node)
-    rep.check(t2.count("for collection in collections") >= 3, "R07.6", "EndpointCollection.from_data::all-collections-updated",
-              "endpoint / errors are not attached to every collection", where(fd, fd.node))
+    cname = norm(colls[0].targets[0]) if colls else ""
+    fan = [lp for lp in ast.walk(fd.node) if isinstance(lp, ast.For) and norm(lp.iter) == cname]
+    kinds = {r.rsplit(".", 1)[-1] for lp in fan for r, _ in receivers(lp, "append")}
+    rep.check(len(fan) >= 3 and kinds == {"parse_errors", "endpoints"}, "R07.6", "EndpointCollection.from_data::all-collections-updated",
+              "endpoint / errors are not attached to every collection", where(fd, fd.node), lhs=[len(fan), sorted(kinds)],
+              rhs="three loops over the collections: rejected endpoint, endpoint warnings, endpoint")
     # method list exhaustive
     pi = ix.cls("PathItem")
     ops = sorted(f_ for f_, ann in ix.all_fields(pi).items() if ann is not None and "Operation" in norm(ann))
     meth = None
-    for n in ast.walk(fd.node):
-        if isinstance(n, ast.Assign) and norm(n.targets[0]) == "methods":
-            try:
-                meth = sorted(ast.literal_eval(n.value))
-            except Exception:  # noqa: BLE001
-                meth = None
+    dl = Locals(fd.node)
+    for lp in ast.walk(fd.node):
+        # the method loop: its variable is the attribute name read from the path item with getattr
+        if isinstance(lp, ast.For) and isinstance(lp.target, ast.Name) and any(
+                isinstance(c, ast.Call) and call_name(c) == "getattr" and len(c.args) >= 2 and norm(c.args[1]) == lp.target.id for c in ast.walk(lp)):
+            for v in ([lp.iter] if not isinstance(lp.iter, ast.Name) else dl.values_of(lp.iter.id)):
+                try:
+                    meth = sorted(ast.literal_eval(v))
+                except Exception:  # noqa: BLE001
+                    meth = None
     rep.check(meth == ops, "R07.6", "EndpointCollection.from_data::methods-exhaustive",
               f"the method list {meth} differs from the Operation fields of PathItem {ops}", where(fd, fd.node), lhs=meth, rhs=ops)
     rep.not_decided.append("the census itself; response media types other than the first supported one are ignored by design")
